@@ -143,7 +143,11 @@ Definition set_record_obd (r : record) (o : obd) : record :=
   mkRecord (r_now r) (r_time r) (r_lap r) (r_pred r) (r_off r) (r_gps r) (r_speed r)
            (r_accel r) (r_brake r) (r_baro r) (r_palt r) (Some o).
 
-Definition predict_obd (laps : list lap) : outcome (list lap) :=
+(* a fitted predictor as a function: the knots xs, one channel's fresh readings ys, the query x.
+   Session.PredictOBD fits one predictor PER CHANNEL on (xs, ys_channel). *)
+Definition predictor := list f64 -> list f64 -> f64 -> f64.
+
+Definition predict_obd_with (pred : predictor) (laps : list lap) : outcome (list lap) :=
   bind (foldi (fun li st l => foldi (predict_row li) 0 (lap_recs l) st) 0 laps (mkP None [] [] []))
   (fun st =>
     match p_needed st with
@@ -158,13 +162,15 @@ Definition predict_obd (laps : list lap) : outcome (list lap) :=
           match r_obd r with
           | None => Panic "nil obd"
           | Some o =>
-            let vals := map (fun ys => pl_predict (p_xs st) ys x) (p_ys st) in
+            let vals := map (fun ys => pred (p_xs st) ys x) (p_ys st) in
             bind (obd_set o vals) (fun o' =>
               Ok (upd_nth li (fun l => mkLap (lap_dur l) (lap_num l)
                                              (upd_nth ri (fun r => set_record_obd r o') (lap_recs l))) laps))
           end))
         (p_needed st) (Ok laps)
     end).
+
+Definition predict_obd : list lap -> outcome (list lap) := predict_obd_with pl_predict.
 
 (* ---------------------------------------------------------------- lapTimerLap / lapTimerFix *)
 Definition utc_midnight (t : Z) : Z := day_of_ns t * ns_per_day.
@@ -233,9 +239,11 @@ Fixpoint laps_of (o : opts) (vehicle : string) (adj : option Z) (id : Z) (ls : l
 
 Definition middle {A} (l : list A) : list A := removelast (tl l).
 
-Definition convert (o : opts) (vehicle_logged : string) (laps : list lap) (geod : list (list f64))
+Definition convert_with (pred : predictor) (o : opts) (vehicle_logged : string) (laps : list lap) (geod : list (list f64))
   : outcome (list llap) :=
   let vehicle := if String.eqb (o_vehicle o) "" then vehicle_logged else o_vehicle o in
-  bind (match o_predict o with O => Ok laps | _ => predict_obd laps end) (fun laps' =>
+  bind (match o_predict o with O => Ok laps | _ => predict_obd_with pred laps end) (fun laps' =>
     if Nat.ltb (length laps') 3 then Ok []
     else laps_of o vehicle None 1 (middle laps') geod).
+(* the default predictor is gonum's PiecewiseLinear *)
+Definition convert : opts -> string -> list lap -> list (list f64) -> outcome (list llap) := convert_with pl_predict.
